@@ -732,8 +732,13 @@ func (cmd *Command) printDiagnostics(cs []*lint.Analyzer, diagnostics []diagnost
 		if diag.Category == "compile" && cmd.flags.debugNoCompileErrors {
 			continue
 		}
-		if diag.Severity == severityIgnored && !cmd.flags.showIgnored {
+		if diag.Severity == severityIgnored {
+			// Ignored diagnostics never affect the exit status; with
+			// -show-ignored they are merely displayed.
 			numIgnored++
+			if cmd.flags.showIgnored {
+				notIgnored = append(notIgnored, diag)
+			}
 			continue
 		}
 		if shouldExit[makeCaseFoldedString(diag.Category)] {
